@@ -31,6 +31,7 @@ SPECIAL_DOCS = [
     "- > - a\n  >\n  > - b\n", "- x\n\n  > - a\n  >\n  > - b\n", "1. > 1. a\n   >\n   > 2. b\n", "> - > - a\n>   >\n>   > - b\n",
     "- x\n\n  > ```\n  > a\n  >\n  > b\n  > ```\n", "[^n]: > ```\n    > a\n    >\n    > b\n    > ```\n\nx[^n]\n", "1. > ~~~\n   > a\n   >\n   > ~~~\n",
     "| a |\n|---|\n| b |\n\n1\\. not a list\n", "| 12 |\n|---|\n| 3 |\n\n4\\. still text\n", "> see <https://x.y>\n", "> text <b>\n", "> [!NOTE]\n> ends with >\n", "> a >\n>\n> b <i>\n",
+    "- a\n-\n- c\n", "-\n", "1.\n2. b\n", "> -\n", "- a\n\n-\n\n- c\n", "- x\n  -\n  - y\n",
     "> [!NOTE]\n", "- > [!TIP]\n- b\n", "> [!WARNING]\n\nafter\n",
     "* * *\n\n---\n", "- a\n\n  b\n- c\n", "- ```\n  code\n  ```\n\n- ```\n  x\n  ```\n", "- > q\n\n- > r\n", "- - a\n\n- - b\n", "- * * *\n\n- z\n",
     "- | a |\n  |---|\n  | 1 |\n\n- x\n", "* * w\n", "> * * w\n", "[^1]: - a\n    - b\n\nx[^1]\n", "- [ ]  two spaces\n", "[a]: http://x 'T'\n\n[a] [b][a]\n", "> - a\n>\n> - b\n",
